@@ -1,6 +1,6 @@
 (* C12 - Full matching partitions the peaks and returns self-consistent matches. *)
 From Coq Require Import ZArith List Bool QArith Qabs.
-From BF Require Import Model.Lattice Model.WLS Model.FullMatch Proofs.FullMatchP Proofs.WLSP.
+From BF Require Import Model.Lattice Model.WLS Model.Match Model.FullMatch Model.Tumble Proofs.FullMatchP Proofs.WLSP Proofs.TumbleP.
 Import ListNotations.
 Open Scope Z_scope.
 
@@ -42,3 +42,24 @@ Theorem C12_match_lattice_is_weighted_fit : forall l x0 x1 x2, (forall r, In r l
   wls_col l = Some (x0, x1, x2) -> forall y0 y1 y2, cost x0 x1 x2 l <= cost y0 y1 y2 l.
 Proof. exact wls_col_optimal. Qed.
 Print Assumptions C12_match_lattice_is_weighted_fit.
+
+(* every match the per-pair search (_match_all + _tumble: check, optimise, check, re-match, check, optimise, check) returns has at
+   least min_match matched peaks, both lattice vectors within [min_delta, max_delta] (on squares), separated by more than the
+   minimum angle (sin^2 criterion), and its lattice is the weighted least-squares fit of exactly its own peaks *)
+Theorem C12_returned_match_is_self_consistent : forall tol2 mm mind2 maxd2 s2 sel pts t0 m z a b,
+  tumble tol2 mm mind2 maxd2 s2 sel pts t0 = Some (m, z, a, b) ->
+  (mm <= count_some m)%Z /\ (mind2 <= norm2 a <= maxd2)%Q /\ (mind2 <= norm2 b <= maxd2)%Q /\
+  (s2 * (norm2 a * norm2 b) < det2 a b * det2 a b)%Q /\
+  exists z' a' b', wls3 (fit_points m pts) = Some (z', a', b') /\ z = vred z' /\ a = vred a' /\ b = vred b'.
+Proof. exact tumble_spec. Qed.
+Print Assumptions C12_returned_match_is_self_consistent.
+
+Theorem C12_returned_lattice_nondegenerate : forall tol2 mm mind2 maxd2 s2 sel pts t0 m z a b, (0 <= s2)%Q -> (0 <= mind2)%Q ->
+  tumble tol2 mm mind2 maxd2 s2 sel pts t0 = Some (m, z, a, b) -> ~ (det2 a b == 0)%Q.
+Proof. exact tumble_lattice_nondegenerate. Qed.
+Print Assumptions C12_returned_lattice_nondegenerate.
+
+Theorem C12_returned_match_within_working_set : forall tol2 mm mind2 maxd2 s2 sel pts t0 m z a b,
+  tumble tol2 mm mind2 maxd2 s2 sel pts t0 = Some (m, z, a, b) -> exists z1 a1 b1, match_all tol2 z1 a1 b1 sel pts = Some m.
+Proof. exact tumble_match_within_working_set. Qed.
+Print Assumptions C12_returned_match_within_working_set.
